@@ -69,6 +69,76 @@ var mutations = []struct{ name, s string }{
 	{"nameref", "declare -n ref=x; ref=Z"},
 	{"trap", "trap 'echo trapped' EXIT"},
 	{"mapfile", "mapfile -t a <<<Z"},
+	{"arr-append-subscript", "a+=([1]=Z)"},
+	{"arr-append-neg-subscript", "a+=([-1]=Z)"},
+	{"arr-append-subscript-run", "a+=([0]=Z Y)"},
+	{"arr-assign-subscript", "a=([1]=Z)"},
+	{"sparse-append-subscript", "s+=([5]=Z)"},
+	{"sparse-append-subscripts", "s+=([2]=Z [9]=Y)"},
+	{"declare-a-assign", "declare -a a=(Z)"},
+	{"declare-elem", "declare a[1]=Z"},
+	{"assoc-assign", "m=([k]=Z)"},
+	{"declare-A-assign", "declare -A m=([k]=Z)"},
+	{"func-changes-globals", "chg() { x=2; a[0]=Z; m[k]=Z; s[2]=Z; }; chg"},
+	{"eval-assign", "eval 'x=2; a[0]=Z; m[k]=Z'"},
+	{"integer-attr", "declare -i x; x+=1"},
+	{"prefix-assign", "x=2 e=7 true"},
+	{"export-array-then-elem", "export a; a[0]=Z"},
+	{"export-assoc-then-elem", "export m; m[k]=Z"},
+	{"readonly-assoc-then-new", "declare -x m; m[new]=Z"},
+	{"readonly-array", "readonly a"},
+	{"unset-v", "unset -v x"},
+	{"lowercase-attr", "declare -l x; x=ZZ"},
+	{"two-step-array", "a[0]=Y; a[0]+=Z; a+=(W)"},
+	{"two-step-assoc", "m[k]+=Y; m[new]=Z; unset 'm[j]'"},
+	{"unset-then-set", "unset a; a=(Z Y)"},
+}
+
+// The same for state that is local to a function (the property quantifies
+// over "locals inside functions"): the whole scenario runs inside main.
+const localSetup = `main() { local lx=1; local -a la=(p q r); local -a ls=([2]=u [5]=w); local -A lm=([k]=v [j]=w)`
+
+const localDump = `echo "lx=${lx-unset} la=${la[*]-unset} ila=${!la[*]} #la=${#la[@]} ls=${ls[*]-unset} ils=${!ls[*]} lmk=${lm[k]-unset} lmj=${lm[j]-unset} lmn=${lm[new]-unset} #lm=${#lm[@]}"; declare -p lx la ls 2>&1; }; main`
+
+var localMutations = []struct{ name, s string }{
+	{"l-scalar-assign", "lx=2"},
+	{"l-scalar-append", "lx+=2"},
+	{"l-scalar-unset", "unset lx"},
+	{"l-redeclare", "local lx=9"},
+	{"l-export-then-assign", "export lx; lx=3"},
+	{"l-arr-elem", "la[0]=Z"},
+	{"l-arr-elem-append", "la[1]+=Z"},
+	{"l-arr-append-elem0", "la+=Z"},
+	{"l-arr-append-list", "la+=(Z)"},
+	{"l-arr-append-subscript", "la+=([1]=Z)"},
+	{"l-arr-append-neg-subscript", "la+=([-1]=Z)"},
+	{"l-arr-unset-elem", "unset 'la[1]'"},
+	{"l-arr-assign", "la=(Z)"},
+	{"l-arr-unset", "unset la"},
+	{"l-arr-export-then-elem", "export la; la[0]=Z"},
+	{"l-sparse-elem", "ls[2]=Z"},
+	{"l-sparse-new", "ls[3]=Z"},
+	{"l-sparse-append0", "ls+=Z"},
+	{"l-sparse-append-subscript", "ls+=([5]=Z)"},
+	{"l-sparse-unset-elem", "unset 'ls[5]'"},
+	{"l-assoc-elem", "lm[k]=Z"},
+	{"l-assoc-elem-append", "lm[k]+=Z"},
+	{"l-assoc-new", "lm[new]=Z"},
+	{"l-assoc-unset-elem", "unset 'lm[k]'"},
+	{"l-assoc-append-list", "lm+=([new]=Z)"},
+	{"l-assoc-export-then-elem", "export lm; lm[k]=Z"},
+	{"l-assoc-declare-x-then-new", "declare -x lm; lm[new]=Z"},
+	{"l-read", "read lx <<<Z"},
+	{"l-read-array", "read -a la <<<'Z Y'"},
+	{"l-arith", "((lx++))"},
+	{"l-for-var", "for lx in 7; do :; done"},
+	{"l-nested-func", "inner() { lx=5; la[0]=Z; lm[k]=Z; }; inner"},
+}
+
+var localParentActions = []struct{ name, s string }{
+	{"none", ""},
+	{"read", `: "$lx ${la[0]} ${la[*]} ${ls[*]} ${lm[k]}"`},
+	{"write", `lx=P; la[0]=P; la+=(P2); ls[2]=P; lm[k]=P`},
 }
 
 // contexts wrap S so that it runs in a subshell of some kind. conc marks the
@@ -103,11 +173,51 @@ var parentActions = []struct{ name, s string }{
 
 func genSubshellCases(prop string, c *vc.Ctx, emit func(Case)) {
 	bound := vc.Pick(c, 1, 2)
+	// function-local state
+	for _, k := range contexts {
+		if k.name == "func-subshell" || k.name == "backquote" || k.name == "cmdsubst-dq" {
+			continue
+		}
+		for _, m := range localMutations {
+			if k.name == "bg-plain" && strings.Contains(m.s, ";") {
+				continue // `S &` backgrounds only the last command of a list
+			}
+			for _, pa := range localParentActions {
+				if !k.conc && pa.name != "none" {
+					continue
+				}
+				if k.conc && c.Quick() && pa.name == "read" && prop == "C27" {
+					continue
+				}
+				mid := ""
+				if pa.s != "" {
+					mid = pa.s + "\n"
+				}
+				prog := localSetup + "\n" + k.wrap(m.s) + "\n" + mid + "wait\n" + localDump
+				ref := localSetup + "\n" + mid + "wait\n" + localDump
+				cs := Case{Prop: prop, Name: fmt.Sprintf("local:%s/%s/%s", k.name, m.name, pa.name), Prog: prog, Bound: bound, PipeCap: 8}
+				if !k.conc {
+					cs.Bound = 0
+				}
+				if prop == "C27" {
+					cs.RefProg = ref
+					cs.IgnoreRace = true
+				} else {
+					cs.Same = true
+					cs.NoDeadlock = true
+				}
+				emit(cs)
+			}
+		}
+	}
 	for _, k := range contexts {
 		for _, m := range mutations {
 			if strings.HasPrefix(k.name, "backquote") && strings.Contains(m.s, "'") {
 				// quoting inside backquotes is a parser matter, not this property's
 				continue
+			}
+			if k.name == "bg-plain" && strings.Contains(m.s, ";") {
+				continue // `S &` backgrounds only the last command of a list
 			}
 			for _, pa := range parentActions {
 				if !k.conc && pa.name != "none" {
@@ -142,7 +252,7 @@ func genSubshellCases(prop string, c *vc.Ctx, emit func(Case)) {
 }
 
 func casesC27(c *vc.Ctx) []Case {
-	c.Rule = "programs = parent state (scalar, exported, indexed dense/sparse, associative, function, alias, options, cwd, positional params, function-local) x every mutation S of a 50-entry alphabet x 14 subshell contexts (( ), $( ), backquotes, function with ( ) body, S &, pipeline first/middle/last stage, <( ), >( ), $( ) in a background job) x parent actions {none, read, write}; for the concurrent contexts every goroutine interleaving of the real interpreter up to the preemption bound is executed; oracle: the parent's state dump (declare -p, declare -f, alias, set -o, shopt, pwd, $@, array views) equals the dump of the same program without S, on every schedule; distinct = (program, outcome) pairs"
+	c.Rule = "programs = parent state (scalar, exported, indexed dense/sparse, associative, function, alias, options, cwd, positional params, function-local) x every mutation S of a 73-entry alphabet (plus 32 mutations of function-local scalars/arrays with the whole scenario inside a function) x 14 subshell contexts (( ), $( ), backquotes, function with ( ) body, S &, pipeline first/middle/last stage, <( ), >( ), $( ) in a background job) x parent actions {none, read, write}; for the concurrent contexts every goroutine interleaving of the real interpreter up to the preemption bound is executed; oracle: the parent's state dump (declare -p, declare -f, alias, set -o, shopt, pwd, $@, array views) equals the dump of the same program without S, on every schedule; distinct = (program, outcome) pairs"
 	c.Assumptions = []string{
 		"interp is instrumented at build time from /repo's working tree (mc/instr): goroutine starts, channel close/receive, WaitGroup, pipes, FIFOs and context.AfterFunc go through the controlled scheduler mc/shim/vsched; stdin_os.go is replaced by an interface-based variant",
 		"external commands are replaced by in-process cat/true/false/sleep",
@@ -154,7 +264,7 @@ func casesC27(c *vc.Ctx) []Case {
 }
 
 func casesC32(c *vc.Ctx) []Case {
-	c.Rule = "programs = the C27 family (parent state x 50 mutations x 10 concurrent contexts x parent actions none/read/write) + wait-status programs + Runner.Subshell() copies run concurrently with their parent through the exported API; every goroutine interleaving of the real interpreter up to the preemption bound is executed under the Go race detector (the scheduler's hand-off is invisible to it, so only the program's own happens-before edges count); oracles: no race report on any schedule, Run returns on every schedule, `wait gN` yields job N's status on every schedule, programs whose jobs touch only private state have one outcome; distinct = (program, outcome) pairs"
+	c.Rule = "programs = the C27 family (parent state x 73 (+32 function-local) mutations x 10 concurrent contexts x parent actions none/read/write) + wait-status programs + Runner.Subshell() copies run concurrently with their parent through the exported API; every goroutine interleaving of the real interpreter up to the preemption bound is executed under the Go race detector (the scheduler's hand-off is invisible to it, so only the program's own happens-before edges count); oracles: no race report on any schedule, Run returns on every schedule, `wait gN` yields job N's status on every schedule, programs whose jobs touch only private state have one outcome; distinct = (program, outcome) pairs"
 	c.Assumptions = []string{
 		"interp is instrumented at build time from /repo's working tree (mc/instr); the race detector sees goroutine start, close->receive, WaitGroup and pipe write->read edges exactly as in an uninstrumented run",
 		"x86-64 TSO makes the scheduler's plain-word token hand-off sound",
@@ -282,16 +392,26 @@ var wrappers = []struct {
 	{"and-or", func(s string) string { return "true && { " + s + "\n} || echo no" }},
 	{"case", func(s string) string { return "case x in x) " + s + "\n;; esac" }},
 	{"for-body", func(s string) string { return "for i in 1 2; do " + s + "\ndone" }},
+	{"in-exit-trap", func(s string) string { return "trap '" + strings.ReplaceAll(s, "'", `'\''`) + "' EXIT\necho body" }},
+	{"in-exit-trap-after-exit", func(s string) string { return "trap '" + strings.ReplaceAll(s, "'", `'\''`) + "' EXIT\nexit 3" }},
+	{"in-err-trap", func(s string) string { return "trap '" + strings.ReplaceAll(s, "'", `'\''`) + "' ERR\nfalse\necho after" }},
+	{"procsubst-in", func(s string) string { return "cat <( " + s + "\n)" }},
+	{"herestring-cmdsubst", func(s string) string { return "cat <<<\"$( " + s + "\n)\"" }},
+	{"heredoc-cmdsubst", func(s string) string { return "cat <<EOF\n$( " + s + "\n)\nEOF" }},
 }
 
-var quickWrappers = map[string]bool{"plain": true, "function": true, "subshell": true, "pipe-left": true, "cmdsubst": true, "background-wait": true, "eval": true, "exit-trap": true, "then-more": true}
+var quickWrappers = map[string]bool{"in-exit-trap": true, "in-err-trap": true, "procsubst-in": true, "plain": true, "function": true, "subshell": true, "pipe-left": true, "cmdsubst": true, "background-wait": true, "eval": true, "exit-trap": true, "then-more": true}
+
+var secondRunWrappers = map[string]bool{"plain": true, "cmdsubst": true, "procsubst-in": true, "pipe-left": true, "background-wait": true, "herestring-cmdsubst": true, "heredoc-cmdsubst": true, "in-exit-trap": true}
+
+var quickSecondRun = map[string]bool{"loop-while": true, "read": true, "sleep": true, "wait-job": true, "cat-stdin": true, "loop-until": true}
 
 var readsStdin = map[string]bool{"read": true, "read-loop": true, "cat-stdin": true, "pipe-read": true, "cmdsubst": true, "select-like": true, "heredoc-then-read": true, "wait-reader": true, "procsubst-out": true}
 
 func casesC31(c *vc.Ctx) []Case {
 	c.Level = "fault_enumeration"
 	K := vc.Pick(c, 20, 60)
-	c.Rule = fmt.Sprintf("programs = 23 blocking/non-terminating/finite shapes x 15 wrappers (quick: 9) (function, subshell, group, pipeline side, command substitution, background+wait, condition, eval, followed by more, EXIT trap, and-or, case, loop body) with standard input an open pipe nobody writes to; fault = the cancellation of Run's context, injected as a scheduler thread at EVERY scheduling point up to point %d (forced there), crossed with every interleaving of the other threads up to the preemption bound; oracle: after the cancel step Run returns within %d further scheduling points (no deadlock = no enabled thread, no livelock = horizon), with a non-nil error when the program cannot finish on its own; distinct = (program, cancel point, outcome)", K, 80)
+	c.Rule = fmt.Sprintf("programs = 23 blocking/non-terminating/finite shapes x 21 wrappers (quick: 12), each also as the second Run of a Runner whose first Run used another context (directly and through a function defined in the first Run) (function, subshell, group, pipeline side, command substitution, background+wait, condition, eval, followed by more, EXIT trap, and-or, case, loop body) with standard input an open pipe nobody writes to; fault = the cancellation of Run's context, injected as a scheduler thread at EVERY scheduling point up to point %d (forced there), crossed with every interleaving of the other threads up to the preemption bound; oracle: after the cancel step Run returns within %d further scheduling points (no deadlock = no enabled thread, no livelock = horizon), with a non-nil error when the program cannot finish on its own; distinct = (program, cancel point, outcome)", K, 80)
 	c.Assumptions = []string{
 		"time is measured in scheduling points of the controlled scheduler, not seconds; a thread that runs 120 s without reaching a scheduling point is reported as a failure of the harness run",
 		"external commands are in-process stand-ins: `sleep inf` blocks until the context is done (like a child killed by DefaultExecHandler), cat copies stdin",
@@ -312,6 +432,19 @@ func casesC31(c *vc.Ctx) []Case {
 			}
 			cs := Case{Prop: "C31", Name: w.name + "/" + b.name, Prog: w.wrap(b.s), Bound: vc.Pick(c, 1, 2), Cancel: true, CancelHorizon: K, After: 80, Stdin: "open", NeverTerminates: never, IgnoreRace: true, PipeCap: 4}
 			out = append(out, cs)
+			// the same as the second Run of a Runner that was first used with
+			// another (never cancelled) context
+			if secondRunWrappers[w.name] && (!c.Quick() || quickSecondRun[b.name]) {
+				cs2 := cs
+				cs2.Name = "second-run:" + cs.Name
+				cs2.Setup = "v=$(echo first); cat <(echo first) >/dev/null; echo first run"
+				out = append(out, cs2)
+				cs3 := cs
+				cs3.Name = "second-run-fn:" + cs.Name
+				cs3.Setup = "blk() { " + b.s + "\n}"
+				cs3.Prog = w.wrap("blk")
+				out = append(out, cs3)
+			}
 		}
 	}
 	return out
